@@ -1,13 +1,16 @@
 """C15 — the intermediate spanner is a weighted (2k-1)-spanner of girth > 2k.
 Theorems: Properties_C15.v (every simple graph, k >= 1, every weight-sorted scan order).  Tie: the spanner exposed by the
 PARMCB_VERIF accessors vs the extracted construct_spanner run on the scan order recovered from the implementation
-(merge by weight, retained before dropped on ties: reproduces the outcome, see DESIGN.md C15); is_bfs_reachable directly."""
+(merge by weight, retained before dropped on ties: reproduces the outcome, see DESIGN.md C15); is_bfs_reachable directly.
+Weight types: double (S, S2 = external property map) and long long (SL, SL2: 64-bit weights above 2^53, distinct weights that collide when rounded
+to double, see props/c12.py weigh64); the scan order is recovered with exact integer comparisons, model and judge compute with unbounded integers."""
 import json
 import lib, gen
 
 PID = "C15"
 THEOREMS = ["Properties_C15.v"]
 KEYS = ["NV", "RET", "DROP", "SPE", "SPW", "MAPSIZE"]
+SPANNER_KINDS = ("S", "S2", "SL", "SL2")
 LIBS = ["-ltbb", "-lboost_timer"]
 
 
@@ -98,7 +101,8 @@ def judge(case, impl):
 def check(tier, seed):
     c = lib.Check(PID, tier, seed, THEOREMS)
     maxn = 14 if tier == "quick" else 40
-    c.rule = ("(graph, k) with k in {0,1,2,3,5,50}, weights unit/ties/wide/pow2, structured + random simple graphs n <= %d; plus direct "
+    c.rule = ("(graph, k) with k in {0,1,2,3,5,50}, weights unit/ties/wide/pow2 (double) and 64-bit weights above 2^53 with (m+4)*sum(w) < 2^63 (long long: 2^54 + permutation, "
+              "2^54+{0..3}, 2^53+r, 2^b+r, heavy/light mixes), interior or external weight map, structured + random simple graphs n <= %d; plus direct "
               "is_bfs_reachable calls with hop bounds around the true distance; distinct by md5; non-trivial = k >= 1 and at least one dropped edge, or a BFS call with s != t") % maxn
     c.step_prove()
     ok = c.step_model()
@@ -117,6 +121,14 @@ def check(tier, seed):
             d = hopdist(g[0], [(u, v) for u, v, _ in g[1]], s, t)
             h = c.rng.choice(["inf", "0", "1", "2", "3"] + ([str(d), str(max(0, d - 1)), str(d + 1)] if d is not None else ["7"]))
             cases.append("B %d %d %s %s" % (s, t, h, gen.graph_tokens(g)))
+        # 64-bit integer weights above 2^53 (long long): distinct weights that collide as doubles, heavier edges inserted before lighter ones
+        from props import c12
+        for _ in range(250 if tier == "quick" else 2500):
+            g = gen.structural(c.rng, maxn)
+            if not g[1] and c.rng.random() < 0.8: continue
+            g, style = c12.weigh64(c.rng, g, c.rng.choice(["ladder", "ladder", "p54", "p54", "p53", "top", "mix"]))
+            k = c.rng.choice([0, 1, 1, 2, 2, 2, 3, 3, 5, 50])
+            cases.append("%s %d %s" % ("SL2" if c.rng.random() < 0.25 else "SL", k, gen.graph_tokens(g)))
         nshort = len(cases)
         import random
         nh = 70000 if tier == "quick" else 140000
@@ -134,13 +146,13 @@ def check(tier, seed):
                 scan = recover_scan(es, [int(x) for x in f["RET"]], [int(x) for x in f["DROP"]])
             except Exception:
                 scan = sorted(range(len(es)), key=lambda e: es[e][2])
-            mcases.append("%s %d %s" % ("S" + cs[2:] if cs.startswith("S2 ") else cs, len(scan), " ".join(map(str, scan))))
+            mcases.append("S %s %d %s" % (" ".join(t[1:]), len(scan), " ".join(map(str, scan))))      # the model takes every spanner kind as S (weights are integers)
         mo = lib.run_model("c15", mcases + hist)
         cases, mcases, io = cases + hist, mcases + hist, io + io_hist
         bad = []
         for i, cs in enumerate(cases):
             t = cs.split()
-            nt = (t[0] == "B" and t[1] != t[2]) or (t[0] in ("S", "S2") and int(t[1]) >= 1 and " DROP " in io[i] + " " and lib.fields(io[i], KEYS).get("DROP"))
+            nt = (t[0] == "B" and t[1] != t[2]) or (t[0] in SPANNER_KINDS and int(t[1]) >= 1 and " DROP " in io[i] + " " and lib.fields(io[i], KEYS).get("DROP"))
             c.count(cs, bool(nt), bucket=t[0] + ("" if t[0] == "B" else " k=" + t[1]))
             if io[i] != mo[i]: bad.append(i)
         c.extra["disagreements_checked"] = len(bad)
